@@ -101,6 +101,26 @@ pub fn test_bytes(b: &[u8], texts: &[String], trailing: &[u8], full_faults: bool
     let mut w = vec![];
     m.write(&mut w).map_err(|e| format!("write: {e}"))?;
     ensure!(w == b, "write() differs from to_vec()");
+    // serialising is repeatable and follows the model when its dictionary is edited in between
+    // (the only mutation the public API offers): to_vec() and write() keep agreeing, and the
+    // result reads back without a remainder
+    if b.len() <= 1 << 16 {
+        ensure!(m.to_vec().ok().as_deref() == Some(b), "a second to_vec() differs from the first");
+        let mut me = Model::read_slice(b).map_err(|e| e.to_string())?.0;
+        let _ = me.to_vec();
+        let mut dict: Vec<vaporetto::WordWeightRecord> = me.dictionary().to_vec();
+        if dict.pop().is_none() {
+            dict.push(vaporetto::WordWeightRecord::new("追加".into(), vec![1, -2, 3], "c".into()).map_err(|e| e.to_string())?);
+        }
+        me.replace_dictionary(dict);
+        let ve = me.to_vec().map_err(|e| format!("to_vec after replace_dictionary on a model that was serialised before: {e}"))?;
+        let mut we = vec![];
+        me.write(&mut we).map_err(|e| format!("write: {e}"))?;
+        ensure!(ve == we, "to_vec() ({} bytes) and write() ({} bytes) differ after the dictionary was edited", ve.len(), we.len());
+        let (back, rest) = Model::read_slice(&ve).map_err(|e| format!("the edited model's serialisation does not read back: {e}"))?;
+        ensure!(rest.is_empty(), "the edited model's serialisation reads back with {} bytes left over", rest.len());
+        ensure!(back.to_vec().ok() == Some(ve), "the edited model re-serialises differently");
+    }
     for chunk in [1usize, 5, 4096] {
         if chunk > 5 && b.len() <= chunk {
             continue;
